@@ -55,6 +55,11 @@ pub struct SrvCase {
     /// C18: insert Kill at this step index and poll afterwards (None = no sweep position);
     /// usize::MAX = every position (systematic sweep)
     pub kill_at: Option<usize>,
+    /// call add_kill_switch() after start_server() instead of before
+    pub kill_after_start: bool,
+    /// the simulated process starts with descriptors 0..2 closed (a daemon): the server's listener,
+    /// epoll and connections get numbers from 0
+    pub fds_from_zero: bool,
 }
 
 impl SStep {
@@ -126,6 +131,8 @@ impl SrvCase {
                 Some(k) => json::u(k),
                 None => J::Null,
             }),
+            ("kill_after_start", J::Bool(self.kill_after_start)),
+            ("fds_from_zero", J::Bool(self.fds_from_zero)),
         ])
     }
     pub fn from_json(j: &J) -> Result<SrvCase, String> {
@@ -146,6 +153,8 @@ impl SrvCase {
             scripts,
             steps,
             kill_at: j.get("kill_at").and_then(|x| x.int()).map(|k| if k < 0 { usize::MAX } else { k as usize }),
+            kill_after_start: j.get("kill_after_start").and_then(|x| x.bool()).unwrap_or(false),
+            fds_from_zero: j.get("fds_from_zero").and_then(|x| x.bool()).unwrap_or(false),
         })
     }
 }
@@ -340,6 +349,7 @@ impl ServerSim {
             cap_s2c: case.cap_s2c.max(FULL_MSG.len() + 8),
             out_threshold: if case.quarter { OutThreshold::Quarter } else { OutThreshold::AnySpace },
             log: true,
+            first_fd: if case.fds_from_zero { 0 } else { 3 },
         });
         let prop = flags.prop;
         let built = catch_unwind(AssertUnwindSafe(|| -> Result<(HttpServer, Option<EventFd>), String> {
@@ -348,12 +358,17 @@ impl ServerSim {
                 server.set_payload_max_size(l);
             }
             let mut kill = None;
-            if case.kill_switch {
+            if case.kill_switch && !case.kill_after_start {
                 let k = EventFd::new(libc::EFD_NONBLOCK).map_err(|e| e.to_string())?;
                 server.add_kill_switch(k.try_clone().map_err(|e| e.to_string())?).map_err(|e| format!("add_kill_switch: {}", e))?;
                 kill = Some(k);
             }
             server.start_server().map_err(|e| format!("start_server: {}", e))?;
+            if case.kill_switch && case.kill_after_start {
+                let k = EventFd::new(libc::EFD_NONBLOCK).map_err(|e| e.to_string())?;
+                server.add_kill_switch(k.try_clone().map_err(|e| e.to_string())?).map_err(|e| format!("add_kill_switch: {}", e))?;
+                kill = Some(k);
+            }
             Ok((server, kill))
         }));
         let (server, kill) = match built {
